@@ -41,6 +41,7 @@ def default_profile(rng, tier="quick"):
         "repeat_bias": rng.choice([0, 0, 0.3, 0.6]),
         "nest_passthrough": rng.choice([0, 0, 0.4]),
         "if_head": rng.choice([0, 0, 0.4]),
+        "if_value": rng.choice([0, 0, 0.4]),
     }
     if tier == "thorough" and rng.random() < 0.3:
         # deeper / larger programs in the thorough tier
@@ -166,7 +167,13 @@ class AccfgGen:
                 scope.append(res)
             return node
         # if
-        return self.if_node(scope, depth, inloop)
+        node = self.if_node(scope, depth, inloop)
+        if p.get("if_value") and r.random() < p["if_value"]:
+            # the conditional also returns a value (one of two values visible in front of it); it can feed later setups
+            name = self.fresh("fv")
+            node["res"] = [name, r.choice(scope), r.choice(scope)]
+            scope.append(name)
+        return node
 
     def if_node(self, scope, depth, inloop):
         r, p = self.r, self.p
@@ -342,6 +349,15 @@ def emit(ast, acc_names=None, vty="i32", decls=()) -> str:
             stmts(ind + 1, s["body"])
             if s["carry"]:
                 e(ind + 1, "scf.yield " + ", ".join(c[2] for c in s["carry"]) + " : " + ", ".join(vty for _ in s["carry"]))
+            e(ind, "}")
+        elif k == "if" and s.get("res"):
+            name, tv, ev = s["res"]
+            e(ind, f'{name} = scf.if {s["cond"]} -> ({vty}) {{')
+            stmts(ind + 1, s["then"])
+            e(ind + 1, f"scf.yield {tv} : {vty}")
+            e(ind, "} else {")
+            stmts(ind + 1, s["else"])
+            e(ind + 1, f"scf.yield {ev} : {vty}")
             e(ind, "}")
         elif k == "if":
             e(ind, f'scf.if {s["cond"]} {{')
